@@ -29,3 +29,39 @@ Print Assumptions C06_tunnel_accounting.
 Theorem C06_no_assertion_failure : forall early evs, t_crashed (trun evs (tun_start early)) = false.
 Proof. exact tunnel_no_assertion_failure. Qed.
 Print Assumptions C06_no_assertion_failure.
+
+(* When no I/O error or timeout occurs and the peer of B (= other a) has not closed, Squid closes B only after it
+   has read A's FIN, and by then every byte A ever sent (early bytes included) has been delivered to B *)
+Theorem C06_tunnel_drain_on_close : forall early evs a,
+  (forall e, In e evs -> is_err e = false /\ is_fin_of (other a) e = false) ->
+  let t := trun evs (tun_start early) in
+  s_open (gs (other a) t) = false ->
+  s_fin (gs a t) = true /\ s_deliv (gs (other a) t) = s_sentby (gs a t) /\ s_open (gs a t) = false.
+Proof. exact tunnel_drain_on_close. Qed.
+Print Assumptions C06_tunnel_drain_on_close.
+
+(* every step: nothing reopens a connection, nothing more is delivered to a closed connection, a peer that sent
+   FIN sends nothing more *)
+Theorem C06_closed_is_final : forall e t y,
+  (s_open (gs y (tstep e t)) = true -> s_open (gs y t) = true) /\
+  (s_open (gs y t) = false -> s_deliv (gs y (tstep e t)) = s_deliv (gs y t)) /\
+  (s_fin (gs y t) = true -> s_sentby (gs y (tstep e t)) = s_sentby (gs y t) /\ s_fin (gs y (tstep e t)) = true).
+Proof. exact tstep_frame. Qed.
+Print Assumptions C06_closed_is_final.
+
+(* the hypotheses of the drain theorem are satisfiable: early bytes + more data + half-close by the client *)
+Example C06_example_drain :
+  let t := trun ex_tevs (tun_start [1;2;3]) in
+  s_open (gs Sv t) = false /\ s_deliv (gs Sv t) = [1;2;3;7;8] /\ s_deliv (gs Cl t) = [5] /\
+  forall e, In e ex_tevs -> is_err e = false /\ is_fin_of (other Cl) e = false.
+Proof. exact ex_drain. Qed.
+
+(* NOT promised by the property and not true of the code: the direction opposite to a half-close is cut. Squid
+   closes both connections as soon as it reads one side's FIN; bytes the other side sent meanwhile are dropped
+   (they stay a prefix, C06_tunnel_prefix_invariant) *)
+Theorem C06_reverse_direction_cut_refuted :
+  exists evs, (forall e, In e evs -> is_err e = false) /\
+    let t := trun evs (tun_start []) in
+    s_open (gs Cl t) = false /\ s_sentby (gs Sv t) = [1;2;3] /\ s_deliv (gs Cl t) = [].
+Proof. exact reverse_direction_cut. Qed.
+Print Assumptions C06_reverse_direction_cut_refuted.
